@@ -87,6 +87,58 @@ Definition pads_of (p : padding) (n : nat) (c : convcfg) : pmode * nat * nat :=
 Definition conv1d (c : convcfg) (p : padding) (x : sig) : sig :=
   let '(m, lo, hi) := pads_of p (length x) c in conv_impl c m lo hi x.
 
+(* ---------------- 1-D transposed convolution ---------------- *)
+(* lax.conv_transpose as ConvTranspose calls it: the input is dilated by the stride (lhs_dilation: s - 1 zero rows
+   between consecutive rows), padded by the pair below and convolved with stride 1 and the kernel dilation; then the
+   layer's own CIRCULAR post-processing: pad the VALID result to whole periods n * s and sum the periods. *)
+Definition dilate (s : nat) (x : sig) : sig :=
+  match x with
+  | [] => []
+  | r :: rest => r :: flat_map (fun r' => repeat [] (s - 1) ++ [r']) rest
+  end.
+
+Inductive tpadding := TSame | TValid | TCircular | TExplicit (lo hi : nat).
+(* jax's _conv_transpose_padding on the effective kernel size; CIRCULAR runs the VALID convolution first *)
+Definition tpads (ke s : nat) (p : tpadding) : nat * nat :=
+  match p with
+  | TSame => let pl := (ke + s - 2)%nat in
+             let pa := if Nat.ltb (ke - 1) s then (ke - 1)%nat else ((pl + 1) / 2)%nat in (pa, (pl - pa)%nat)
+  | TValid | TCircular => let pl := (ke + s - 2 + (ke - s))%nat in ((ke - 1)%nat, (pl - (ke - 1))%nat)
+  | TExplicit lo hi => (lo, hi)
+  end.
+
+Definition lin_cfg (c : convcfg) : convcfg := mkConv (cv_k c) None 1 (cv_dil c) 1 (cv_cin c) (cv_feats c).
+Definition convT_len (c : convcfg) (p : tpadding) (n : nat) : nat :=
+  let '(pa, pb) := tpads (keff c) (cv_stride c) p in (((n - 1) * cv_stride c + 1) + pa + pb + 1 - keff c)%nat.
+(* without bias and without the circular wrap *)
+Definition convT_lin (c : convcfg) (p : tpadding) (x : sig) : sig :=
+  let xd := dilate (cv_stride c) x in
+  let '(pa, pb) := tpads (keff c) (cv_stride c) p in
+  conv_spec (lin_cfg c) PZero (Z.of_nat pa) (length xd + pa + pb + 1 - keff c) xd.
+
+(* y padded by `left` zero rows on the left (and zeros on the right), cut into periods of P rows, the periods summed *)
+Definition wrap_sum (P feats left : nat) (y : sig) : sig :=
+  let ypad := repeat [] left ++ y in
+  map (fun j => map (fun f => zsum (map (fun m => getc (nth (m * P + j) ypad []) f) (seq 0 (length ypad / P + 1)))) (seq 0 feats)) (seq 0 P).
+
+(* size_diff = -(len - P) mod 2P; the odd unit goes left, or right when the kernel is given transposed *)
+Definition circ_left (P len : nat) (tk : bool) : nat :=
+  let sd := ((2 * P - (len - P) mod (2 * P)) mod (2 * P))%nat in if tk then (sd / 2)%nat else ((sd + 1) / 2)%nat.
+
+Definition add_bias (b : option row) (feats : nat) (y : sig) : sig :=
+  match b with
+  | None => y
+  | Some bb => map (fun r => map (fun f => getc r f + getc bb f) (seq 0 feats)) y
+  end.
+
+Definition conv_transpose1d (c : convcfg) (p : tpadding) (tk : bool) (x : sig) : sig :=
+  let y := convT_lin c p x in
+  let y' := match p with
+            | TCircular => let P := (length x * cv_stride c)%nat in wrap_sum P (cv_feats c) (circ_left P (length y) tk) y
+            | _ => y
+            end in
+  add_bias (cv_bias c) (cv_feats c) y'.
+
 (* ---------------- Embed ---------------- *)
 Definition embed_lookup (table : list row) (ids : list nat) : list row := map (fun i => nth i table []) ids.
 Definition embed_attend (table : list row) (q : row) : row := map (fun r => zsum (map (fun ab => fst ab * snd ab) (combine q r))) table.
